@@ -55,6 +55,11 @@ class _Ctx:
             self.base = DATA_MIN
         self.nblocks = cfg["ways"] + r.randint(1, 3)
         self.sets_used = r.choice([1, 1, 2, min(nsets, 4)])
+        # value personality: a third of the runs also write small and repeated values (0, 1, 7, 255, the value
+        # written last, ...), where a stored byte can equal the whole word it goes into or the value already there;
+        # the reference is a byte store, so uniqueness only serves attribution, not soundness
+        self.small = r.random() < 0.33
+        self.last_values = [0]
 
     def value(self, width):
         """Every written value is unique within the run (runs have <= 250 writes) and
@@ -62,9 +67,15 @@ class _Ctx:
         one lane."""
         self.counter += 1
         c = self.counter
+        if self.small and self.r.random() < 0.6:
+            v = self.r.choice([0, 1, 2, 7, 7, 255, 256, 0x0101, 0x00070007, 0x80, 0x8000] + self.last_values[-3:])
+            v &= (1 << (8 * width)) - 1
+            self.last_values.append(v)
+            return v
         v = 0
         for i, mul in zip(range(width), (1, 7, 13, 29)):
             v |= ((c * mul) % 251 + 1) << (8 * i)
+        self.last_values.append(v)
         return v
 
     def block_addr(self):
@@ -202,9 +213,10 @@ def _motif(ctx):
         a = blk(0) + 4 * r.randrange(1 << cfg["bb"])
         ops.append(["W", r.choice([1, 2, 4]), a - a % 4, 0])
         ops[-1][3] = ctx.value(ops[-1][1])
+        ops.append(["INSPECT"])
         for i in range(1, cfg["ways"] + 1):
             ops.append(["R", 4, blk(i), 0])
-        ops += [["R", 4, a - a % 4, 1], ["R", 4, blk(1), 1]]
+        ops += [["INSPECT"], ["R", 4, a - a % 4, 1], ["R", 4, blk(1), 1]]
     elif m == 12:  # dirty blocks, reset, the same addresses again
         n = r.randint(1, cfg["ways"])
         for i in range(n):
